@@ -27,15 +27,29 @@ Lemma handle_packet_unsolicited st id client pk fl st1 fl1 brk o :
 Proof.
   intros H G U. destruct pk; try contradiction; cbn [unsolicited] in U;
     unfold handle_packet, get_obuf in H; rewrite G in H; cbn [bind] in H.
-  - unfold register_ack in *. destruct (o_inflight o) as [| [[h x] y] r].
-    + inv_ok. repeat split.
-    + cbn [pkid_of fst] in U. replace (pkid =? h) with false in H by lia. inv_ok. repeat split.
-  - unfold register_ack in *. destruct (o_inflight o) as [| [[h x] y] r].
-    + inv_ok. repeat split.
-    + cbn [pkid_of fst] in U. replace (pkid =? h) with false in H by lia. inv_ok. repeat split.
-  - unfold register_pubcomp in *. destruct (o_pubrels o) as [| h r].
-    + inv_ok. repeat split.
-    + replace (pkid =? h) with false in H by lia. inv_ok. repeat split.
+  - rewrite (register_ack_mismatch _ _ U) in *. inv_ok. repeat split.
+  - rewrite (register_ack_mismatch _ _ U) in *. inv_ok. repeat split.
+  - rewrite (register_pubcomp_mismatch _ _ U) in *. inv_ok. repeat split.
+Qed.
+
+(** ... and the window / the pending releases of that connection are exactly what they were:
+    the unacknowledged head is still there when the connection is closed (and so goes into the
+    saved session of a persistent client) *)
+Lemma handle_packet_unsolicited_keeps st id client pk fl st1 fl1 brk o :
+  handle_packet st id client pk fl = Ok (st1, fl1, brk) ->
+  slab_get (r_obufs st) id = Some o -> unsolicited o pk ->
+  keep st1 = keep (put_obuf st id o) /\ slab_get (r_obufs st1) id = Some o /\
+  (forall id', id' <> id -> slab_get (r_obufs st1) id' = slab_get (r_obufs st) id').
+Proof.
+  intros H G U. destruct (handle_packet_unsolicited _ _ _ _ _ _ _ _ _ H G U) as (_ & _ & _ & _ & _ & K).
+  assert (K' : keep st1 = keep (put_obuf st id o)).
+  { rewrite K. destruct pk; try contradiction; cbn [unsolicited] in U.
+    - now rewrite (register_ack_mismatch _ _ U).
+    - now rewrite (register_ack_mismatch _ _ U).
+    - now rewrite (register_pubcomp_mismatch _ _ U). }
+  split; [exact K' |]. rewrite (keep_obufs _ _ K'). cbn [put_obuf r_obufs set_r_obufs]. split.
+  - eapply slab_get_put_occ; eauto.
+  - intros id' Hne. apply slab_get_put_other. congruence.
 Qed.
 
 (** [handle_device_payload] after a batch that set the disconnect flag: it disconnects THIS id *)
